@@ -5,11 +5,15 @@ import sys, os
 p = sys.argv[1]
 root = os.environ.get("VERIF_ROOT", "/verif")
 V = {"C22": "q", "C21": "pipe", "C23": "iter"}
-if os.path.isdir(os.path.join(root, "h/cmd", p.lower())):
+if p in ("C16", "C17"):
+    print(p.lower() + " tsres")  # + the typesystem-resolver interleaving sub-harness
+elif os.path.isdir(os.path.join(root, "h/cmd", p.lower())):
     print(p.lower())
 elif p in V:
     print(V[p])
 elif p == "C02":
     print("free red")  # the first is executed, the others are built alongside (sub-harnesses)
+elif p == "C09":
+    print("free citer")
 else:
     print("free")
